@@ -386,7 +386,43 @@ static void encode(const json& v)
                     rep.ok("encode-ghdr-form");
             }
     }
-    else if(op == "data")
+    if(op == "ghdr" && st.contains("big"))
+    {
+        // counts near the limits of the numInGroup type (ViewEmit.tla BigFills): header only
+        const auto& go = R.groups.at(key);
+        for(const auto& bj : st["big"])
+        {
+            const bytes nd = to_bytes(bj["n"]);
+            std::uint64_t n = 0;
+            for(std::size_t i = nd.size(); i-- > 0;)
+                n = (n << 8) | nd[i];
+            const bytes postb = to_bytes(bj["post"]);
+          for(const char* form : {"fill", "fill_zero_then_resize"})
+          {
+            region regf(pre.size(), true);
+            regf.load(pre);
+            char* pf = regf.data() + v0;
+            std::ptrdiff_t retf = -1;
+            ::vh::group_form() = form;
+            const std::string ef = attempt([&] { retf = go.fill_header(pf, size, ip, n); });
+            ::vh::group_form() = "fill";
+            json csf = {{"msg", msg}, {"key", key}, {"op", op}, {"ip", st["ip"]}, {"n", n}, {"form", form},
+                        {"schema", g_schema}, {"aspect", "bytes"}, {"pre", hex(pre)}, {"expected", hex(postb)}};
+            const std::string sigf = "encode/ghdr/" + g_schema + ":" + key + "/big-count/form=" + form;
+            if(!ef.empty())
+                rep.mismatch(sigf + "/trap", ef, csf);
+            else if(regf.dump() != postb)
+            {
+                csf["got"] = hex(regf.dump());
+                rep.mismatch(sigf, "fill_group_header with numInGroup = " + std::to_string(n)
+                                       + " leaves bytes that differ from the SBE header image", csf);
+            }
+            else
+                rep.ok("encode-ghdr-big");
+          }
+        }
+    }
+    if(op == "data")
     {
         key = lkey + ":" + st["name"].get<std::string>();
         const auto& dops = R.data.at(key);
